@@ -5,8 +5,9 @@
    Matching one item is a parameter of everything below (`e_matchf E p x = Some key`): the theorems hold for
    every matching function; the assumptions the chunk cache needs about it are stated where used
    (`monotone`, `key_determines`). *)
-From Fzf Require Import Prelude SearchSpec ChunkStoreModel CacheModel MatcherModel ChunkStoreProofs CacheProofs MatcherProofs.
-From Coq Require Import Permutation.
+From Coq Require Import Permutation Sorted.
+From Fzf Require Import Prelude RankSpec RankModel MergerModel RankProofs MergerProofs.
+From Fzf Require Import SearchSpec ChunkStoreModel CacheModel MatcherModel ChunkStoreProofs CacheProofs MatcherProofs ViewProofs.
 Open Scope Z_scope.
 
 (* ================= chunk list / chunk store ================= *)
@@ -34,17 +35,21 @@ Theorem cache_only_full_chunks : forall (R : Type) g (c : cache R) clen id key l
   clen = chunk_size /\ (length l <= query_cache_max)%nat /\ key <> [].
 Proof. exact cache_add_only_full_proof. Qed.
 
-(* counts_consistent - PARTIAL.  Proved: the count a snapshot reports is CountItems of its own cells, and that
-   formula is the true number of items whenever every chunk but the first and the last is full (`mid_full`).
-   Missing: `mid_full` as an invariant of every reachable list (in particular that the --tail trimming loop only
-   ever cuts the FIRST kept chunk); full statement:
-     forall before tail cl r cells, crun1 cl_empty before = Ok cl -> snapshot cl tail = Ok r ->
-       deref_all (cl_store (sn_cl r)) (sn_ids r) = Ok cells -> sn_count r = length (concat cells).
-   It is checked on the implementation for every snapshot of every run (spec check counts_consistent). *)
-Theorem counts_consistent_partial : forall (item : Type) (cl : clist item) tail (r : snap_result item) cells,
-  snapshot cl tail = Ok r -> deref_all (cl_store (sn_cl r)) (sn_ids r) = Ok cells ->
-  mid_full (map (@length item) cells) -> sn_count r = length (concat cells).
-Proof. exact counts_consistent_partial_proof. Qed.
+(* shape_reachable: every chunk list reachable from the empty one by Push / rejected Push / Clear / Snapshot(tail)
+   satisfies the store invariant and the SHAPE invariant: every chunk but the first and the last is full
+   (after a --tail trim the first may be partial: the trim loop only ever cuts the first kept chunk). *)
+Theorem shape_reachable : forall (item : Type) (ops : list (cop item)) (cl : clist item),
+  crun1 cl_empty ops = Ok cl -> inv item cl /\ shape item cl.
+Proof. exact shape_reachable_proof. Qed.
+
+(* counts_consistent: the count returned with a snapshot of ANY reachable list, with or without --tail, is the
+   number of items the snapshot dereferences to (CountItems' formula first + chunkSize*(n-2) + last is exact because
+   the snapshot has the shape above). *)
+Theorem counts_consistent : forall (item : Type) (before : list (cop item)) tail (cl : clist item) (r : snap_result item) cells,
+  crun1 cl_empty before = Ok cl -> snapshot cl tail = Ok r ->
+  deref_all (cl_store (sn_cl r)) (sn_ids r) = Ok cells ->
+  sn_count r = length (concat cells) /\ mid_full (map (@length item) cells).
+Proof. exact counts_consistent_proof. Qed.
 
 (* ================= chunk cache as used by Pattern.Match ================= *)
 Section Statements.
@@ -116,14 +121,36 @@ Section Statements.
     end.
   Proof. exact (fresh_contents_proof E). Qed.
 
-  (* display order - PARTIAL: equal to the oracle whenever nothing is ranked.  For ranked mergers the order shown
-     is Merger's k-way merge (C04 merge_is_global_sort); missing here: rank_sort of sorted partitions = rank_sort of
-     everything, which needs unique item indexes.  Checked on the implementation for every published merger. *)
-  Theorem publish_view_unsorted_partial : forall (r : request) f,
-    (r_sort r && e_sortable E (r_pat r))%bool = false \/ e_empty E (r_pat r) = true \/ r_chunks r = [] ->
+  (* publish_view: what such a merger SHOWS, top to bottom (merger_view: the rank order of everything it holds when
+     sorted, the concatenation otherwise, reversed under tac where Merger.Get reverses), is the sequential oracle
+     of its own request - rank order when sorting is on and the query has a positive term, input order otherwise,
+     all items for the empty query.  Bridging assumption for the ranked case: item indexes identify items
+     (`idx_injective`: Item.Index() is the ordinal of the input line), which makes the order behind compareRanks
+     (`rank_strict`) a strict TOTAL order; compareRanks itself (`rank_before`) is sound for it unconditionally. *)
+  Theorem publish_view : forall (r : request) f, idx_injective E ->
     merger_view E (set_final (scan_spec E r) f) =
     oracle (e_idx E) (e_matchf E) (e_empty E) (e_sortable E) (r_sort r) (e_tac E) (r_pat r) (snapshot_items r).
-  Proof. exact (fresh_view_unsorted_proof E). Qed.
+  Proof. exact (publish_view_proof E). Qed.
+
+  (* publish_view_ranked: the same through C04's model of merger.go (MergerModel, used unchanged; its theorem
+     merge_is_global_sort is generic in `less`): for a fresh ranked merger, ANY sequence of in-range Get(i) calls on
+     NewMerger(lists, sorted, tac) - the lazy k-way merge with cursors - never fails and returns, at every position,
+     the item the oracle has there. *)
+  Theorem publish_view_ranked : forall (I : Type) (mk : I -> item * Z) (chunk_size : Z)
+      (r : request) f lists (idxs : list Z),
+    idx_injective E -> mg_body (set_final (scan_spec E r) f) = MLists lists true ->
+    in_range (zlength (concat lists)) idxs ->
+    exists xs, probes I (item * Z)%type mk (rank_before (e_idx E) (e_tac E)) chunk_size
+                      (new_merger I (item * Z)%type lists true (e_tac E)) idxs = Ok xs /\
+               Forall2 (fun i x => get (oracle (e_idx E) (e_matchf E) (e_empty E) (e_sortable E) (r_sort r) (e_tac E)
+                                               (r_pat r) (snapshot_items r)) (Z.to_nat i) = Ok (fst x)) idxs xs.
+  Proof. exact (publish_view_ranked_proof E). Qed.
+
+  (* the bridge itself *)
+  Theorem rank_order_bridge : forall tac,
+    less_sound (rank_strict E tac) (rank_before (e_idx E) tac) /\
+    (idx_injective E -> strict_total (rank_strict E tac)).
+  Proof. intro tac. split; [apply rank_before_sound | apply rank_strict_total]. Qed.
 
   (* last_request_wins: for every history, once the mailbox is empty the newest publication belongs to the LAST
      request that was posted (with loop_fresh: and is its fresh scan). *)
@@ -137,15 +164,23 @@ End Statements.
 Print Assumptions snapshot_immutable.
 Print Assumptions full_never_mutated.
 Print Assumptions cache_only_full_chunks.
-Print Assumptions counts_consistent_partial.
+Print Assumptions shape_reachable.
+Print Assumptions counts_consistent.
 Print Assumptions narrowing_sound.
 Print Assumptions cache_inv_preserved.
 Print Assumptions stale_add_ignored.
 Print Assumptions scan_all_or_nothing.
 Print Assumptions loop_fresh.
 Print Assumptions publish_matches_request.
-Print Assumptions publish_view_unsorted_partial.
+Print Assumptions publish_view.
+Print Assumptions publish_view_ranked.
+Print Assumptions rank_order_bridge.
 Print Assumptions last_request_wins.
+
+(* UNPROVED (nothing of C13's theorem list is left open; what remains is assumed, and named where used):
+   UNPROVED hist_ok_from_coordinator : the requests core.go sends satisfy `hist_ok` (coordinator model: C08's CoordModel)
+   UNPROVED monotone_of_fzf_patterns : `monotone` / `key_determines` for fzf's real Pattern (C08 term_monotone)
+   NOT A THEOREM: data-race freedom of the Go code (race detector, thorough tier; known finding R1). *)
 
 (* ================= non-vacuity and regression witnesses ================= *)
 Section Examples.
@@ -260,5 +295,33 @@ Section Examples.
     snd (pattern_match Enew c1 0%nat full_chunk) = c1.
   Proof.
     cbv zeta. split; [apply cache_inv_invalidate|]. repeat split; vm_compute; reflexivity.
+  Qed.
+  (* counts_consistent / shape_reachable on a --tail trim: 150 pushes (chunks of 100 and 50), Snapshot(tail = 120):
+     the first chunk is cut to its last 70 items, the snapshot reports 120 = 70 + 50, and reads items 30..149 *)
+  Example c13_counts_nonvacuous :
+    let ops := map (@CPush nat) (seq 0 150) ++ [CSnap 120] in
+    exists cl snap cells, crun (cl_empty, []) ops = Ok (cl, [snap]) /\ crun1 cl_empty ops = Ok cl /\
+      deref_all (cl_store cl) (sn_ids snap) = Ok cells /\
+      sn_count snap = 120%nat /\ sn_changed snap = true /\ map (@length nat) cells = [70; 50]%nat /\
+      concat cells = seq 30 120.
+  Proof.
+    cbv zeta. eexists. eexists. eexists. split; [vm_compute; reflexivity|].
+    split; [vm_compute; reflexivity|]. split; [vm_compute; reflexivity|]. repeat split; vm_compute; reflexivity.
+  Qed.
+
+  (* publish_view / publish_view_ranked: a ranked merger over two partitions; random-access Get calls on C04's
+     merger model return the oracle's items *)
+  Example c13_view_nonvacuous :
+    let E := ex_env rules_fixed in
+    let r := ex_req [(0%nat, [4; 9; 1]); (1%nat, [3; 0; 7])] 0%nat (0, 0) in
+    idx_injective E /\
+    mg_body (set_final (scan_spec E r) true) = MLists [[(1, 1); (4, 4)]; [(0, 0); (3, 3)]] true /\
+    merger_view E (set_final (scan_spec E r) true) = [0; 1; 3; 4] /\
+    oracle (e_idx E) (e_matchf E) (e_empty E) (e_sortable E) true false 0%nat (snapshot_items r) = [0; 1; 3; 4] /\
+    probes Z (Z * Z)%type (fun x => (x, 0)) (rank_before (e_idx E) false) 100
+           (new_merger Z (Z * Z)%type [[(1, 1); (4, 4)]; [(0, 0); (3, 3)]] true false) [3; 0; 2; 0]
+      = Ok [(4, 4); (0, 0); (3, 3); (0, 0)].
+  Proof.
+    cbv zeta. split; [intros x y H; exact H|]. repeat split; vm_compute; reflexivity.
   Qed.
 End Examples.
